@@ -14,6 +14,7 @@ from ..bags import match, placement_writers, property_readers, readers_in, row_w
 from ..cfg import CFG
 from ..core import AnalysisError, Repo, Report, call_name, calls_in, kwarg, norm, walk_local
 from ..dataflow import DefUse
+from .util import canon, cguards
 from ..pipeline import STAGE_CTORS, compile_funcs, mains, top_statements
 
 # keys written on combinator placements that are deliberately not emitted (consumed by layout, or documentation only)
@@ -41,27 +42,36 @@ BOOKKEEPING = {
 def _stage_trace(f) -> list[str]:
     """Normalised sequence of pipeline events in a compile function (input-reading prologue dropped)."""
     ev = []
+    cf_ = canon(f)
+    def norm_c(e):  # canonical text, with the per-entry input name abstracted
+        return cf_.text(e)
     for st in top_statements(f):
         txt = norm(st)
         for c in [n for n in ast.walk(st) if isinstance(n, ast.Call)]:
             nm = call_name(c)
             if nm in STAGE_CTORS or nm in ("ConstantPropagationOptimizer", "CSEOptimizer", "ProgramDiagnostics"):
-                kws = sorted(f"{k.arg}={norm(k.value)}" for k in c.keywords if k.arg)
-                args = [norm(a) for a in c.args]
+                kws = sorted(f"{k.arg}={norm_c(k.value)}" for k in c.keywords if k.arg)
+                args = [norm_c(a) for a in c.args]
                 ev.append(f"new {nm}({', '.join(args + kws)})")
             elif nm in ("parse", "visit", "lower_program", "plan_layout", "emit_from_plan", "optimize", "to_dict", "to_string", "dumps"):
-                recv = norm(c.func.value) if isinstance(c.func, ast.Attribute) else ""
-                argt = [norm(a) for a in c.args]
+                recv = norm_c(c.func.value) if isinstance(c.func, ast.Attribute) else ""
+                argt = [norm_c(a) for a in c.args]
+                if nm in ("visit", "lower_program", "plan_layout", "emit_from_plan", "optimize", "dumps", "to_dict", "to_string"):
+                    # arguments are results of earlier stages: name the producing stage call only
+                    def _head(a):
+                        cn = cf_.node(a)
+                        return (call_name(cn) + "(...)") if isinstance(cn, ast.Call) else " ".join(ast.unparse(cn).split())
+                    argt = [_head(a) for a in c.args]
                 if nm == "parse":
                     argt = argt[:1] and ["<source>.strip()" if ".strip()" in argt[0] else argt[0]] + ["<name>"]
-                kws = sorted(f"{k.arg}={'<label>' if k.arg == 'blueprint_label' else norm(k.value)}" for k in c.keywords if k.arg)
+                kws = sorted(f"{k.arg}={'<label>' if k.arg == 'blueprint_label' else norm_c(k.value)}" for k in c.keywords if k.arg)
                 ev.append(f"{recv.split('(')[0]}.{nm}({', '.join(argt + kws)})")
         if isinstance(st, ast.If) and "has_errors()" in txt:
-            ev.append("gate " + norm(st.test) + " -> " + norm(st.body[-1]).replace("'", '"')[:60])
+            ev.append("gate " + norm_c(st.test).split("(")[0] + "..." + norm_c(st.test).rsplit(".", 1)[-1] + " -> " + norm(st.body[-1]).replace("'", '"')[:40])
         if isinstance(st, ast.If) and norm(st.test) in ("optimize", "use_json"):
             ev.append("if " + norm(st.test))
         if isinstance(st, ast.Return):
-            ev.append("return " + txt[7:60])
+            ev.append("return " + norm_c(st.value)[:40] if st.value is not None else "return")
     return ev
 
 
@@ -98,30 +108,38 @@ def run(repo: Repo, rep: Report, tier: str) -> None:
     rep.rule("C07-R2", "the success result is json.dumps(blueprint.to_dict()) under use_json and blueprint.to_string() otherwise, of the object returned by emit_from_plan; "
              "in both mains it reaches click.echo / write_text unchanged and nothing else is echoed to stdout on the success path unless verbose")
     for f in cfs:
-        du = DefUse(f)
-        bp = [norm(v) for v in du.value_exprs("blueprint")]
-        ok_bp = bp == ["emitter.emit_from_plan(layout_plan)"]
-        res = {norm(v) for v in du.value_exprs("blueprint_result")}
-        ok_res = res == {"json.dumps(blueprint.to_dict())", "blueprint.to_string()"}
+        cf_ = canon(f)
         rets = [n for n in walk_local(f.node) if isinstance(n, ast.Return) and isinstance(n.value, ast.Tuple) and norm(n.value.elts[0]) == "True"]
-        ok_ret = len(rets) == 1 and norm(rets[0].value.elts[1]) == "blueprint_result"
+        alts = cf_.alts(rets[0].value.elts[1]) if len(rets) == 1 else []
+        def _exported(t: str) -> str | None:
+            if t.startswith("json.dumps(") and t.endswith(".to_dict())"):
+                inner = t[len("json.dumps("):-len(".to_dict())")]
+                return "json" if inner.startswith("BlueprintEmitter(") and ".emit_from_plan(" in inner and inner.endswith(")") else None
+            if t.endswith(".to_string()"):
+                inner = t[:-len(".to_string()")]
+                return "string" if inner.startswith("BlueprintEmitter(") and ".emit_from_plan(" in inner and inner.endswith(")") else None
+            return None
+        kinds = sorted(str(_exported(t)) for t in alts)
+        ok_res = kinds == ["json", "string"]
         ifs = [n for n in walk_local(f.node) if isinstance(n, ast.If) and norm(n.test) == "use_json"]
-        ok_split = bool(ifs) and "to_dict" in norm(ifs[0].body[-1]) and "to_string" in norm(ifs[0].orelse[-1])
-        rep.check(ok_bp and ok_res and ok_ret and ok_split, "C07-R2", f"{f.short} returns the exported blueprint unchanged",
-                  f"blueprint <- {bp}; result <- {sorted(res)}; json under use_json: {ok_split}", f.loc())
+        ok_split = bool(ifs) and bool(ifs[0].orelse) and "to_dict" in norm(ifs[0].body[-1]) and "to_string" in norm(ifs[0].orelse[-1])
+        rep.check(ok_res and ok_split, "C07-R2", f"{f.short} returns the exported blueprint unchanged",
+                  f"success result is one of {kinds} of emit_from_plan's blueprint; json under use_json: {ok_split}", f.loc())
+    from ..core import parents_map
+    from ..sites import guard_chain
     for mf, cf in ms:
         cfg = CFG(mf.node)
-        du = DefUse(mf)
-        src = [norm(v) for v in du.value_exprs("result")]
-        ok_src = all(cf.name in s for s in src) and bool(src)
-        writers = [x for s in cfg.stmts() if not isinstance(s, (ast.If, ast.Try, ast.For, ast.With)) for x in ast.walk(s) if isinstance(x, ast.Call) and call_name(x) in ("echo", "write_text", "print") and any(isinstance(a2, ast.Name) and a2.id == "result" for a2 in x.args)]
-        plain = all(norm(w.args[0]) == "result" for w in writers)
-        rep.check(ok_src and len(writers) == 2 and plain, "C07-R2", f"{mf.qual}: result reaches stdout / -o without transformation", "; ".join(norm(w)[:50] for w in writers), mf.loc())
+        cm = canon(mf)
+        def _is_result(e: ast.AST, ix: int) -> bool:
+            t = cm.text(e)
+            return t.startswith(cf.name + "(") and t.endswith(f")[{ix}]") and t.count(cf.name + "(") == 1
+        writers = [x for s in cfg.stmts() if not isinstance(s, (ast.If, ast.Try, ast.For, ast.With)) for x in ast.walk(s)
+                   if isinstance(x, ast.Call) and call_name(x) in ("echo", "write_text", "print") and x.args and cf.name + "(" in cm.text(x.args[0]) and kwarg(x, "err") is None]
+        plain = all(_is_result(w.args[0], 1) for w in writers)
+        rep.check(len(writers) == 2 and plain, "C07-R2", f"{mf.qual}: result reaches stdout / -o without transformation", "; ".join(norm(w)[:50] for w in writers), mf.loc())
         # other stdout echoes after the success test must be verbose-guarded or go to stderr
-        from ..core import parents_map
-        from ..sites import guard_chain
         pm = parents_map(mf.node)
-        fails = [s for s in cfg.stmts() if isinstance(s, ast.If) and norm(s.test) == "not success"]
+        fails = [s for s in cfg.stmts() if isinstance(s, ast.If) and isinstance(s.test, ast.UnaryOp) and isinstance(s.test.op, ast.Not) and _is_result(s.test.operand, 0)]
         for c in calls_in(mf.node, "echo"):
             if c in writers or kwarg(c, "err") is not None:
                 continue
@@ -140,7 +158,8 @@ def run(repo: Repo, rep: Report, tier: str) -> None:
     loops = [n for n in walk_local(em.node) if isinstance(n, ast.For)]
     ok = bool(loops) and norm(loops[0].iter) in ("sorted(layout_plan.entity_placements.keys())", "sorted(layout_plan.entity_placements)", "layout_plan.entity_placements.values()", "layout_plan.entity_placements")
     rep.check(ok, "C07-R3", "every placement is emitted", f"for ... in {norm(loops[0].iter)}" if loops else "no loop", em.loc())
-    skips = [n for n in walk_local(em.node) if isinstance(n, ast.If) and norm(n.test) == "entity is None"]
+    cem = canon(em)
+    skips = [n for n in walk_local(em.node) if isinstance(n, ast.If) and cem.text(n.test).endswith(" is None") and ".create_entity(" in cem.text(n.test)]
     ok = bool(skips) and any(isinstance(x, ast.Call) and isinstance(x.func, ast.Attribute) and x.func.attr == "error" for s in skips[0].body for x in ast.walk(s))
     rep.check(ok, "C07-R3", "a placement that yields no entity is reported as an error", "diagnostics.error under `entity is None`" if ok else "silently skipped", em.loc())
     ok = any(call_name(c) == "_materialize_connections" for c in calls_in(em.node)) and any(call_name(c) == "append" and "blueprint.entities" in norm(c.func) for c in calls_in(em.node))
@@ -155,8 +174,8 @@ def run(repo: Repo, rep: Report, tier: str) -> None:
     for n in walk_local(mc.node):
         if isinstance(n, ast.Continue):
             n_skip += 1
-            gs = [(norm(t), pol) for t, pol in _gc(mc, n, pmm)]
-            ok = any(g == "source is None or sink is None" and pol for g, pol in gs) and len([g for g in gs if g[1]]) == 1
+            gs = cguards(mc, n)
+            ok = any(g == "entity_map.get(ELEM(layout_plan.wire_connections).source_entity_id) is None or entity_map.get(ELEM(layout_plan.wire_connections).sink_entity_id) is None" and pol for g, pol in gs) and len([g for g in gs if g[1]]) == 1
             rep.check(ok, "C07-R3", f"a planned wire is skipped only when an endpoint entity is missing (`continue` at line offset {n.lineno - mc.node.lineno})",
                       "; ".join(g for g, p in gs if p) if ok else f"wire dropped under {[g for g, p in gs if p]}: part of the planned circuit is not in the blueprint", mc.loc(n))
     rep.floor("C07-R3", "skip sites in the wire materialiser", n_skip, 1)
@@ -227,7 +246,7 @@ def run(repo: Repo, rep: Report, tier: str) -> None:
     for m in list(mb.methods.values()) + list(ep.methods.values()):
         row_w += row_writers(m)
     mcf = emit_cls.methods["_configure_decider_multi_condition"]
-    row_r = {r.key for r in readers_in(mcf, {"cond"})}
+    row_r = {r.key for r in readers_in(mcf, None, lambda t: t == "ELEM(conditions_list)")}
     rep.floor("C07-R4", "row keys written", len({w.key for w in row_w}), 4)
     for k in sorted({w.key for w in row_w}):
         w = [x for x in row_w if x.key == k][0]
